@@ -1107,6 +1107,15 @@ fn derive_dot_expression(
                                     types: NarrowingShape::Any,
                                 }));
                             }
+                            // A candidate can be a set of candidates itself,
+                            // a select that yields an unknown tuple for one.
+                            Shape::Narrowed(_) => {
+                                let nested =
+                                    derive_dot_expression(pos, t, right_expr, symbol_table);
+                                if !matches!(nested, Shape::TypeErr(_, _)) {
+                                    results.push(nested);
+                                }
+                            }
                             _ => { /* not field-accessible, skip */ }
                         }
                     }
@@ -1150,6 +1159,13 @@ fn derive_dot_expression(
                                     pos: pi.pos.clone(),
                                     types: NarrowingShape::Any,
                                 }));
+                            }
+                            Shape::Narrowed(_) => {
+                                let nested =
+                                    derive_dot_expression(pos, t, right_expr, symbol_table);
+                                if !matches!(nested, Shape::TypeErr(_, _)) {
+                                    results.push(nested);
+                                }
                             }
                             _ => { /* not int-indexable, skip */ }
                         }
